@@ -27,6 +27,43 @@ C2_EXC = {'constructMTBDD': 'sink is the default leaf, the spine node is not (en
 UNARY = ('Apply1Functor', 'VoidApply1Functor')
 
 
+def construct_entry_test(unit, fn, call):
+    """True, or the reason why spawnInternal(sink, spine) in constructMTBDD may get equal children"""
+    from vfacts import guards
+    from .prov import var_table, local_sources
+    vt = var_table(fn)
+    # the sink: a local initialised by spawnLeaf(D)
+    dtxt = None
+    for a in call.get('args', [])[:2]:
+        s = strip(a)
+        if s is not None and s['k'] == 'DeclRefExpr' and s.get('d') in vt and vt[s['d']]['kind'] == 'local':
+            for src in local_sources(fn, s['d']):
+                ss = strip(src)
+                if ss is not None and ss['k'] in ('CallExpr', 'CXXMemberCallExpr') and cname(ss) == 'spawnLeaf' and ss.get('args'):
+                    dtxt = unit.text(strip(ss['args'][0]), 0)
+    if dtxt is None:
+        return 'no child is a leaf spawned for the default value'
+    params = {p['d'] for p in fn.params}
+    for pol, cnd, how in guards(call):
+        if how != 'early-exit' or pol is not False:
+            continue
+        for x in walk(cnd):
+            ops = None
+            if x['k'] == 'BinaryOperator' and x.get('op') == '==':
+                ops = x['ch']
+            elif x['k'] == 'CXXOperatorCallExpr' and x.get('op') == '==' and len(x.get('args', [])) == 2:
+                ops = x['args']
+            if not ops:
+                continue
+            l, r = strip(ops[0]), strip(ops[1])
+            for u_, v_ in ((l, r), (r, l)):
+                if u_ is not None and u_['k'] in ('CallExpr', 'CXXMemberCallExpr') and cname(u_) == 'GetDataFromLeaf' and u_.get('args'):
+                    node = strip(u_['args'][0])
+                    if node is not None and node.get('d') in params and unit.text(v_, 0) == dtxt:
+                        return True
+    return 'no early exit `GetDataFromLeaf(<node parameter>) == %s` dominates this call, so the given node can be the sink itself' % dtxt
+
+
 def cname(c):
     return (c.get('q') or '').rsplit('::', 1)[-1] if c['k'] in ('CallExpr', 'CXXMemberCallExpr') else None
 
@@ -123,6 +160,14 @@ def run(unit, em):
                 txt = unit.text(c, 70)
                 if good:
                     em.ok(c, txt, 'reached only with %s != %s' % (ta, tb), 'C2')
+                elif name == 'constructMTBDD':
+                    # not frozen: the exception holds only because of the entry test.  sink = spawnLeaf(D); the spine starts at
+                    # the parameter node; an early exit `if (IsLeaf(node) && GetDataFromLeaf(node) == D) return ..` must dominate.
+                    why = construct_entry_test(unit, fn, c)
+                    if why is True:
+                        em.ok(c, txt, 'the sink is the default leaf and the entry test returns early when the given node is that leaf, so the two children differ', 'C2')
+                    else:
+                        em.violation(c, txt, 'an internal node can be created with identical children %s, %s: %s; extending a constant MTBDD then builds unreduced nodes and equal functions compare unequal' % (ta, tb, why), 'C2')
                 elif name in C2_EXC:
                     em.ok(c, txt, 'frozen exception (%s): %s' % (name, C2_EXC[name]), 'C2')
                 else:
